@@ -89,3 +89,26 @@ Example ex_fold_free :
   fold_free (read0 (vertex_writes [4%Z] [0; 1; 2; 3]%Z (cert_values 2 [1%Z]) (cert_values 2 [1%Z]) (map fst ex_B) (map snd ex_B)))
             ex_faces = true.
 Proof. vm_compute. reflexivity. Qed.
+
+(* ------------------------------------------------------------------ where the cotangents come from (generated) *)
+Lemma laplacian_weight_source :
+  (forall has_attr, lap_cot_source false has_attr = None) /\      (* uniform weights asked: a cached table is never used *)
+  lap_cot_source true false = Some false /\                       (* no cache: computed now from the current vertices *)
+  lap_cot_source true true = Some true.                           (* cache present: used as it is *)
+Proof. split; [intros [|]; reflexivity|]. split; reflexivity. Qed.
+
+(* REFUTED (known finding seq/stale-cotan-cache-after-vertex-move): "a cotangent embedding solves the system of the
+   mesh's CURRENT cotangents".  The code reads the persistent attribute when it exists and nothing invalidates it when
+   vertices move; a solution for the cached table is in general no solution for the current one. Witness: the fan over
+   the four square corners, cached cotangents all 1, current cotangents with one corner at 3. *)
+Definition ex_cot_cached : list Q := [1; 1; 1; 1; 1; 1; 1; 1; 1; 1; 1; 1].
+Definition ex_cot_current : list Q := [1; 3; 1; 1; 1; 1; 1; 1; 1; 1; 1; 1].
+Lemma cotan_cache_stale_refuted :
+  exists (fs : list face) (free bnd : list Z) (Ub Vb : list Q) (cached current : list Q) (D : Z) (N : list Z),
+    lap_cot_source true true = Some true /\
+    check_cert_with rhs_U (lap_triplets fs true cached) free bnd (comp_list U_border_data [] [] Ub Vb) D N = true /\
+    check_cert_with rhs_U (lap_triplets fs true current) free bnd (comp_list U_border_data [] [] Ub Vb) D N = false.
+Proof.
+  exists ex_faces, [4%Z], [0; 1; 2; 3]%Z, (map fst ex_B), (map snd ex_B), ex_cot_cached, ex_cot_current, 2%Z, [1%Z].
+  repeat split; vm_compute; reflexivity.
+Qed.
